@@ -91,8 +91,8 @@ theorem inverse_deleteRow (d : Doc) (i : Nat) (line : Int) (row0 : Row) : Invers
                 have h4 : y - 1 + 1 = y := by omega
                 simp [h1, h2, h3, h4]
           rw [obs_setLayer, e1]
-          have h1 := obs_w he'; have h2 := obs_h he'; have h3 := obs_layers he'
-          refine DObs.ext' h1 h2 ?_
+          have h1 := obs_w he'; have h2 := obs_h he'; have h3 := obs_layers he'; have hx4 := obs_x he'
+          refine DObs.ext' h1 h2 ?_ hx4
           show (e'.layers.map LayerM.obs).set i l.obs = d.layers.map LayerM.obs
           rw [h3]
           show ((d.setLayer i _).layers.map LayerM.obs).set i l.obs = _
@@ -166,8 +166,8 @@ theorem inverse_insertRow (d : Doc) (i : Nat) (line : Int) (row0 : Row) : Invers
         have fin : ∀ (l2 : LayerM), l2.obs = l.obs → (e'.setLayer i l2).obs = d.obs := by
           intro l2 h2
           rw [obs_setLayer, h2]
-          have h1 := obs_w he'; have h2' := obs_h he'; have h3 := obs_layers he'
-          refine DObs.ext' h1 h2' ?_
+          have h1 := obs_w he'; have h2' := obs_h he'; have h3 := obs_layers he'; have hx4 := obs_x he'
+          refine DObs.ext' h1 h2' ?_ hx4
           show (e'.layers.map LayerM.obs).set i l.obs = d.layers.map LayerM.obs
           rw [h3]
           show ((d.setLayer i _).layers.map LayerM.obs).set i l.obs = _
@@ -525,8 +525,8 @@ theorem inverse_deleteColumn (d : Doc) (i : Nat) (col : Int) (del0 : List (Optio
               · simp only [h1, if_false]
                 rw [hy x (by omega), hy (x + 1) (by omega)]
         rw [obs_setLayer, e1]
-        have h1 := obs_w he'; have h2 := obs_h he'; have h3 := obs_layers he'
-        refine DObs.ext' h1 h2 ?_
+        have h1 := obs_w he'; have h2 := obs_h he'; have h3 := obs_layers he'; have hx4 := obs_x he'
+        refine DObs.ext' h1 h2 ?_ hx4
         show (e'.layers.map LayerM.obs).set i l.obs = d.layers.map LayerM.obs
         rw [h3]
         show ((d.setLayer i _).layers.map LayerM.obs).set i l.obs = _
